@@ -8,6 +8,7 @@ import (
 	"math/big"
 	"os"
 	"sync"
+	"time"
 
 	gfr "github.com/consensys/gnark-crypto/ecc/bls12-381/fr"
 	"github.com/crate-crypto/go-ipa/bandersnatch/fp"
@@ -250,6 +251,17 @@ func (r *roundRobin) emit(e ev) {
 
 // ---- spare-capacity guards: a slice handed to the library is the front part of a larger array whose tail holds sentinels;
 //      after the call the tail must be intact (nothing may be appended into a caller's spare capacity) ----
+
+// mustReturn runs f; if f has not returned after 180 s (alone, the slowest call of these families takes about a second) the driver
+// dies with a panic naming the call: the runner isolates the program, requires the stall to reproduce when the program is run alone
+// and hands it to Trace_Crash - the specification has no action for a call that never returns.
+func mustReturn(what string, f func()) {
+	t := time.AfterFunc(180*time.Second, func() {
+		panic("verif: " + what + " did not return within 180 s (the call blocks)")
+	})
+	defer t.Stop()
+	f()
+}
 
 type tailGuard struct{ checks []func() bool }
 
